@@ -305,7 +305,7 @@ def _copy_fp(fp):
     # only copies memories some net refers to, and a port-less memory has no behaviour. The
     # memories in use are compared through index 2, and the name index of the result is
     # checked against them separately. Everything else must be identical.
-    return fp[:4] + fp[6:]
+    return fp[:4] + fp[6:7]     # (index 7, the memories' own port lists, is per object too)
 
 
 def _fp_diff(a, b):
